@@ -562,6 +562,13 @@ func (vc *VC) loadGlobal(st *State, g *ssa.Global) Val {
 		if _, isIface := under(t).(*types.Interface); !isIface {
 			vc.assert(vc.wfVal(t, v))
 		}
+		// references held in globals were allocated before the function under verification started
+		a0 := vc.heap(&State{heaps: map[string]string{}}, "$alloc", "Int")
+		for i, l := range leaves(t) {
+			if l.Sort == "Int" && (l.Typ == nil || isRefType(l.Typ)) {
+				vc.assert(lt(flatT(t, v)[i], a0))
+			}
+		}
 		return v
 	}
 	return vc.load(st, vc.globalPtr(g), t)
@@ -1050,9 +1057,10 @@ func (vc *VC) byteHeap(st *State) string {
 
 func (vc *VC) bytesEqual(st *State, a, b *SliceV) string {
 	h := vc.byteHeap(st)
-	i := "q_beq_i"
-	body := implies(and(le("0", i), lt(i, a.Len)), eq(sel2(h, a.Arr, plus(a.Off, i)), sel2(h, b.Arr, plus(b.Off, i))))
-	return and(eq(a.Len, b.Len), forall([][2]string{{i, "Int"}}, body))
+	g := "q_beq_g"
+	// quantified over the absolute index into a's backing array (pattern-friendly, cf. bytesAt)
+	body := implies(and(le(a.Off, g), lt(g, plus(a.Off, a.Len))), eq(sel2(h, a.Arr, g), sel2(h, b.Arr, plus(b.Off, minus(g, a.Off)))))
+	return and(eq(a.Len, b.Len), forall([][2]string{{g, "Int"}}, "(! "+body+" :pattern ("+sel2(h, a.Arr, g)+"))"))
 }
 
 // ---- spec function applications (recursive / bodiless) ----
